@@ -49,6 +49,7 @@ func main() {
 	prop := fs.String("prop", "", "property whose monitors are reported (app stream)")
 	restarts := fs.Bool("restarts", false, "app stream: restart the node at random block boundaries")
 	checktx := fs.Bool("checktx", false, "app stream: interleave CheckTx calls")
+	queries := fs.Bool("queries", false, "app stream: interleave Query calls")
 	_ = fs.Parse(os.Args[2:])
 	if *work == "" || *out == "" {
 		fmt.Fprintln(os.Stderr, "need -work and -out")
@@ -69,7 +70,7 @@ func main() {
 	case "ledger":
 		res = ledgerstream.Run(*seed, *tier, wd, *driver, rp)
 	case "app":
-		res = appstream.Run(*seed, *tier, wd, *driver, rp, appstream.Config{Prop: *prop, Restarts: *restarts, CheckTx: *checktx})
+		res = appstream.Run(*seed, *tier, wd, *driver, rp, appstream.Config{Prop: *prop, Restarts: *restarts, CheckTx: *checktx, Queries: *queries})
 	case "signer":
 		res = signerstream.Run(*seed, *tier, wd, *driver, rp)
 	case "rlp":
